@@ -164,3 +164,143 @@ impl SessionProbe {
         }
     }
 }
+
+/// Schedule points: no-ops unless the harness arms a gate for the point's id.
+pub mod sched {
+    use std::collections::HashMap;
+    use std::sync::Mutex;
+
+    use tokio::sync::oneshot;
+
+    /// In `Consume for SenderFlowState`: after the failed credit check, before awaiting the wake-up
+    pub const CONSUME_AFTER_FAILED_CHECK: u32 = 1;
+    /// In `send_payload_with_transfer`: after the transfer was queued, before the unsettled entry is inserted
+    pub const SEND_AFTER_QUEUE_BEFORE_UNSETTLED: u32 = 2;
+
+    type Gate = (oneshot::Sender<()>, oneshot::Receiver<()>);
+
+    static GATES: Mutex<Option<HashMap<u32, Gate>>> = Mutex::new(None);
+
+    /// Arms a one-shot gate: the next task reaching `id` signals `reached` and
+    /// then waits until `release` is fired (or dropped).
+    pub fn arm(id: u32) -> (oneshot::Receiver<()>, oneshot::Sender<()>) {
+        let (reached_tx, reached_rx) = oneshot::channel();
+        let (release_tx, release_rx) = oneshot::channel();
+        let mut g = GATES.lock().unwrap();
+        g.get_or_insert_with(HashMap::new)
+            .insert(id, (reached_tx, release_rx));
+        (reached_rx, release_tx)
+    }
+
+    /// Removes every armed gate
+    pub fn disarm_all() {
+        *GATES.lock().unwrap() = None;
+    }
+
+    /// A schedule point
+    pub async fn point(id: u32) {
+        let gate = {
+            let mut g = GATES.lock().unwrap();
+            g.as_mut().and_then(|m| m.remove(&id))
+        };
+        if let Some((reached, release)) = gate {
+            let _ = reached.send(());
+            let _ = release.await;
+        }
+    }
+}
+
+/// Link flow state as seen on the wire
+#[derive(Debug, Clone, PartialEq, Eq, Default)]
+pub struct ProbeLinkFlow {
+    /// delivery-count
+    pub delivery_count: Option<u32>,
+    /// link-credit
+    pub link_credit: Option<u32>,
+    /// available
+    pub available: Option<u32>,
+    /// drain
+    pub drain: bool,
+    /// echo
+    pub echo: bool,
+}
+
+impl ProbeLinkFlow {
+    fn into_link_flow(self, handle: u32) -> crate::endpoint::LinkFlow {
+        crate::endpoint::LinkFlow {
+            handle: fe2o3_amqp_types::definitions::Handle(handle),
+            delivery_count: self.delivery_count,
+            link_credit: self.link_credit,
+            available: self.available,
+            drain: self.drain,
+            echo: self.echo,
+            properties: None,
+        }
+    }
+
+    fn from_link_flow(f: crate::endpoint::LinkFlow) -> Self {
+        Self {
+            delivery_count: f.delivery_count,
+            link_credit: f.link_credit,
+            available: f.available,
+            drain: f.drain,
+            echo: f.echo,
+        }
+    }
+}
+
+/// The sender's link flow state: the consumer half used by `Sender::send`
+/// and the producer half used by the session task.
+#[derive(Debug)]
+pub struct SenderCreditConsumer(crate::link::SenderFlowState);
+
+/// See [`SenderCreditConsumer`]
+#[derive(Debug)]
+pub struct SenderCreditProducer(crate::link::SenderRelayFlowState);
+
+/// Creates both halves of a sender's flow state
+pub fn sender_credit(
+    initial_delivery_count: u32,
+    delivery_count: u32,
+    link_credit: u32,
+) -> (SenderCreditConsumer, SenderCreditProducer) {
+    use crate::link::state::{LinkFlowState, LinkFlowStateInner};
+    use crate::util::Consumer;
+    let inner = LinkFlowStateInner {
+        initial_delivery_count,
+        delivery_count,
+        link_credit,
+        available: 0,
+        drain: false,
+        properties: None,
+    };
+    let notifier = Arc::new(tokio::sync::Notify::new());
+    let consumer = Consumer::new(notifier, Arc::new(LinkFlowState::sender(inner)));
+    let producer = consumer.producer();
+    (SenderCreditConsumer(consumer), SenderCreditProducer(producer))
+}
+
+impl SenderCreditConsumer {
+    /// `Consume::consume`: waits for credit, returns the delivery tag (big-endian delivery-count)
+    pub async fn consume(&self, count: u32) -> [u8; 4] {
+        use crate::util::Consume;
+        self.0.consume(count).await
+    }
+
+    /// (delivery-count, link-credit, drain)
+    pub fn snapshot(&self) -> (u32, u32, bool) {
+        let g = self.0.state().lock.read();
+        (g.delivery_count, g.link_credit, g.drain)
+    }
+}
+
+impl SenderCreditProducer {
+    /// What `LinkRelay::Sender::on_incoming_flow` does with a flow from the receiver
+    pub async fn on_incoming_flow(&mut self, flow: ProbeLinkFlow) -> Option<ProbeLinkFlow> {
+        use crate::util::Produce;
+        self.0
+            .produce((flow.into_link_flow(0), crate::endpoint::OutputHandle(0)))
+            .await
+            .map(ProbeLinkFlow::from_link_flow)
+    }
+}
